@@ -296,7 +296,7 @@ def parse_register(text, name):
     return [int(x) for x in re.findall(r"-?\d+", m.group(1))]
 
 
-def validate_trace(ctx, trace_module, constants, obs_path, prop, tagbase, chunk=60000, parallel=4, spec="Spec"):
+def validate_trace(ctx, trace_module, constants, obs_path, prop, tagbase, chunk=60000, parallel=6, spec="Spec"):
     """Validates obs_path with spec/<trace_module>.tla in chunks.  Returns (bad, drift, consumed)."""
     lines = [x for x in open(obs_path).read().split("\n") if x.strip()]
     chunks = [lines[i:i + chunk] for i in range(0, len(lines), chunk)] or [[]]
